@@ -215,16 +215,16 @@ impl SearchQuery {
         Ok(())
     }
 
-    fn slice(&self, mut ids: Vec<DbId>) -> Result<Vec<DbId>, DbError> {
-        Ok(match (self.limit, self.offset) {
-            (0, 0) => ids,
-            (0, _) => ids[self.offset as usize..].to_vec(),
-            (_, 0) => {
-                ids.truncate(self.limit as usize);
-                ids
-            }
-            (_, _) => ids[self.offset as usize..(self.offset + self.limit) as usize].to_vec(),
-        })
+    fn slice(&self, ids: Vec<DbId>) -> Result<Vec<DbId>, DbError> {
+        let len = ids.len() as u64;
+        let begin = self.offset.min(len);
+        let end = if self.limit == 0 {
+            len
+        } else {
+            begin.saturating_add(self.limit).min(len)
+        };
+
+        Ok(ids[begin as usize..end as usize].to_vec())
     }
 
     pub(crate) fn new() -> Self {
